@@ -273,12 +273,13 @@ def check_facade(prog, run):
         sas = sorted(fspec["extra"]["by_service_action"]) if "by_service_action" in fspec["extra"] else [None]
         for setname in sets[:1]:
             for sa in sas[:1]:
-                for fp in eval_facade(prog, name, fspec, setname, "all", sa=sa):
+                for fp in eval_facade(prog, name, fspec, setname, "all", sa=sa, other_error="fork"):
                     if not fp.faulted:
                         continue
                     nfault += 1
                     p = fp.path
-                    c = "SCSI.%s on CHECK CONDITION" % name
+                    kind = "CHECK CONDITION" if any(cc_ and "CheckConditionError" in d for d, cc_, _, _ in p.path) else "a binding error"
+                    c = "SCSI.%s on %s" % (name, kind)
                     sg = [i for i, e in fp.events("external-call") if e["name"] == "sgio.execute"]
                     dec_after = [i for i, e in fp.events("decode") if sg and i > sg[-1]]
                     if dec_after:
@@ -287,11 +288,11 @@ def check_facade(prog, run):
                     elif p.returned:
                         cmd = p.value[0]
                         rawv = cmd.attrs.get("_raw_sense_data") if isinstance(cmd, Instance) else None
-                        if fspec["raw_sense"] and isinstance(rawv, External):
+                        if fspec["raw_sense"] and isinstance(rawv, External) and kind == "CHECK CONDITION":
                             run.ok("facade-passes-error-on", c, {"note": "raw sense requested and attached"})
                         else:
                             run.violation("facade-passes-error-on", c,
-                                          "%s returns normally although the device reported CHECK CONDITION" % fp.label(), file, line,
+                                          "%s returns normally although the transport reported %s" % (fp.label(), kind), file, line,
                                           "pyscsi.pyscsi.scsi:SCSI.%s" % name)
                     else:
                         run.ok("facade-passes-error-on", c, {"raises": exc_name(p)})
